@@ -170,6 +170,27 @@ Proof.
   cbn [MiniPy.eval]. rewrite Hs. cbn [bad2 list_ascii_of_string]. now rewrite count_P.
 Qed.
 
+(* FER with a pH: (total charge from the oracle + prolines) over the length *)
+Theorem FER_pH_tie (sq : list aa) (ph c : Q) r : List.length sq = N -> (1 <= N)%nat -> lookup "self.len" r = VInt (Z.of_nat N) -> lookup "pH" r = VQ ph ->
+  lookup "self.seq" r = VStr (map aa_char sq) -> cap [VQ ph; VStr (list_ascii_of_string "TOTAL")] = VQ c ->
+  MiniPy.exec cprim1 0 g_FER r = ORet (VQ (Qred (Qred (c + inject_Z (cnt (aa_eqb Pro) sq)) / lenq))).
+Proof.
+  intros Hsq HN Hl Hph Hs Hc. unfold g_FER.
+  assert (T : truthy (MiniPy.eval cprim1 (ENe (EVar "pH") (EConst VNone)) r) = VBool true) by (cbn [MiniPy.eval]; rewrite Hph; reflexivity).
+  rewrite (exec_if_true _ _ _ _ T). apply exec_return_ok; [|reflexivity].
+  assert (E1 : MiniPy.eval cprim1 (ECall "charge_at_pH|mode" [EVar "pH"; EConst (VStr (list_ascii_of_string "TOTAL"))]) r = VQ c).
+  { rewrite (eval_call2 _ _ _ _ (VQ ph) (VStr (list_ascii_of_string "TOTAL")) (eq_trans (eval_var _ _) Hph) (eval_const _ _) eq_refl eq_refl).
+    unfold cprim1. cbn [String.eqb Ascii.eqb Bool.eqb]. exact Hc. }
+  assert (Ep : MiniPy.eval cprim1 (ECount (EVar "self.seq") (EConst (VStr (list_ascii_of_string "P")))) r = VInt (cnt (aa_eqb Pro) sq)).
+  { cbn [MiniPy.eval]. rewrite Hs. cbn [bad2 list_ascii_of_string]. now rewrite count_P. }
+  assert (Es : MiniPy.eval cprim1 (EAdd (ECall "charge_at_pH|mode" [EVar "pH"; EConst (VStr (list_ascii_of_string "TOTAL"))]) (ECount (EVar "self.seq") (EConst (VStr (list_ascii_of_string "P"))))) r =
+               VQ (Qred (c + inject_Z (cnt (aa_eqb Pro) sq)))) by (apply eval_add_Q_int; assumption).
+  assert (E2 : MiniPy.eval cprim1 (EAdd (EVar "self.len") (EConst (VQ (0 # 1)))) r = VQ lenq) by (cbn [MiniPy.eval]; rewrite Hl; reflexivity).
+  rewrite (eval_call2 _ _ _ _ _ (VQ lenq) Es E2 eq_refl eq_refl). unfold cprim1. cbn [String.eqb Ascii.eqb Bool.eqb].
+  unfold cprim0. cbn [String.eqb Ascii.eqb Bool.eqb qdiv_prim as_Q]. rewrite lenq_zero.
+  replace (N =? 0)%nat with false by (symmetry; apply Nat.eqb_neq; lia). reflexivity.
+Qed.
+
 (* the fractions as rationals *)
 Lemma frac_value c : (1 <= N)%nat -> (Qred (inject_Z c / lenq) == c # Pos.of_nat N)%Q.
 Proof.
@@ -181,6 +202,7 @@ Print Assumptions countNeut_tie.
 Print Assumptions NCPR_tie.
 Print Assumptions FCR_pH_tie.
 Print Assumptions FER_tie.
+Print Assumptions FER_pH_tie.
 
 (* ---------- the public getters (SequenceParameters) are exactly a return of the backend call with their own arguments ---------- *)
 Lemma fw_get_countPos : g_fw_get_countPos = SReturn (ECall "SeqObj.countPos"%string []). Proof. reflexivity. Qed.
